@@ -48,6 +48,12 @@ if [ $ok = 1 ]; then
   python3 - "$src/meta.json" "$d/meta.json" "$clean" "$suite" "$demo" "$res" <<'PY'
 import json,sys
 m=json.load(open(sys.argv[1]))
+import os
+if os.path.exists(sys.argv[2]):
+    old=json.load(open(sys.argv[2]))
+    er=old.get("earlier_runs",[])
+    if old.get("checks_run") and (not er or er[-1]!=old["checks_run"]): er.append(old["checks_run"])
+    if er: m["earlier_runs"]=er
 m["confirmed"]={"demo_on_unchanged_tree":sys.argv[3],"suite_with_patch":sys.argv[4],"demo_with_patch":sys.argv[5]}
 m["checks_run"]=sys.argv[6].split()
 m["detected"]=any(x.split(":")[1].isdigit() and x.split(":")[1]!="0" for x in m["checks_run"])
